@@ -15,7 +15,7 @@ type Sort string
 
 const (
 	SBool Sort = "Bool"
-	SStr  Sort = "Str"
+	SStr  Sort = "(_ BitVec 64)" // strings are abstract 64-bit identities; literals are distinct numerals, "" is 0
 	SRef  Sort = "(_ BitVec 32)"
 	SF64  Sort = "(_ FloatingPoint 11 53)"
 	SF32  Sort = "(_ FloatingPoint 8 24)"
@@ -68,8 +68,8 @@ type Ctx struct {
 
 func NewCtx() *Ctx {
 	c := &Ctx{ufs: map[string]bool{}, strLits: map[string]Term{}, sorts: map[string]bool{}, names: map[string]bool{}, Notes: map[string]bool{}}
-	c.lines = append(c.lines, "(declare-sort Str 0)")
-	c.lines = append(c.lines, "(declare-fun strlen (Str) (_ BitVec 64))")
+	c.lines = append(c.lines, "(declare-fun strlen ((_ BitVec 64)) (_ BitVec 64))")
+	c.lines = append(c.lines, "(assert (= (strlen (_ bv0 64)) (_ bv0 64)))")
 	c.ufs["strlen"] = true
 	return c
 }
@@ -161,11 +161,15 @@ func (c *Ctx) StrLit(s string) Term {
 	if t, ok := c.strLits[s]; ok {
 		return t
 	}
-	name := fmt.Sprintf("str!%d!%s", len(c.strLits), sanitize(s))
+	if s == "" {
+		return BVLit(0, 64)
+	}
+	name := fmt.Sprintf("str!%d!%s", len(c.strLits)+1, sanitize(s))
 	if len(name) > 50 {
 		name = name[:50]
 	}
-	c.lines = append(c.lines, fmt.Sprintf("(declare-const %s Str)", name))
+	// literal k is the identity 2^62+k: distinct from every other literal and from ""
+	c.lines = append(c.lines, fmt.Sprintf("(define-fun %s () (_ BitVec 64) (_ bv%d 64))", name, (1<<62)+len(c.strLits)+1))
 	c.lines = append(c.lines, fmt.Sprintf("(assert (= (strlen %s) %s))", name, BVLit(int64(len(s)), 64).S))
 	t := Term{name, SStr}
 	c.strLits[s] = t
@@ -192,14 +196,6 @@ func (c *Ctx) Script(nAssume int, negGoal Term, wantModel bool) string {
 		b.WriteString(l)
 		b.WriteByte('\n')
 	}
-	if len(c.strOrder) > 1 {
-		b.WriteString("(assert (distinct")
-		for _, s := range c.strOrder {
-			b.WriteByte(' ')
-			b.WriteString(c.strLits[s].S)
-		}
-		b.WriteString("))\n")
-	}
 	for i := 0; i < nAssume && i < len(c.Assumes); i++ {
 		fmt.Fprintf(&b, "(assert %s)\n", c.Assumes[i].S)
 	}
@@ -219,14 +215,6 @@ func (c *Ctx) MultiScript(parts []OblPart) string {
 	for _, l := range c.lines {
 		b.WriteString(l)
 		b.WriteByte('\n')
-	}
-	if len(c.strOrder) > 1 {
-		b.WriteString("(assert (distinct")
-		for _, s := range c.strOrder {
-			b.WriteByte(' ')
-			b.WriteString(c.strLits[s].S)
-		}
-		b.WriteString("))\n")
 	}
 	done := 0
 	for _, p := range parts {
